@@ -157,7 +157,7 @@ def tree_digest(root):
     return h.hexdigest()
 
 
-def run_case(case, exe, workdir, fault=None, timeout=TIMEOUT, env_base=None):
+def run_case(case, exe, workdir, fault=None, timeout=TIMEOUT, env_base=None, trace=False):
     """run once; returns dict(rc, signal, timeout, stdout_sha/bytes, stderr, out_state, report)"""
     workdir = Path(workdir)
     if workdir.exists():
@@ -168,6 +168,8 @@ def run_case(case, exe, workdir, fault=None, timeout=TIMEOUT, env_base=None):
     env = dict(env_base)
     rep = workdir / "report"
     env["VF_REPORT"] = str(rep)
+    if trace:
+        env["VF_TRACE"] = str(workdir / "trace")
     if case.out_kind in ("file", "tree"):
         env["VF_OUT"] = str(out)
     else:
@@ -214,6 +216,14 @@ def run_case(case, exe, workdir, fault=None, timeout=TIMEOUT, env_base=None):
             elif w[0] == "exit":
                 report["exit"] = int(w[1])
     res["report"] = report
+    if trace:
+        tr = {}
+        tp = workdir / "trace"
+        if tp.exists():
+            for l in tp.read_text().splitlines():
+                c, sd, k, h = l.split()
+                tr.setdefault((c, sd, h), []).append(int(k))
+        res["trace"] = tr
     shutil.rmtree(workdir, ignore_errors=True)
     return res
 
@@ -304,6 +314,111 @@ def gen_cases(ctx, d, rng, tools, scale=1, jobs="1"):
         Case("rd-d", "rdsquashfs", ["-d", str(img)], "stdout", None),
     ]
     return cases
+
+
+# ------------------------------------------------------------------------------------------------ boundary inputs
+def growth_constants():
+    """flush / growth thresholds read from the working tree's sources (never hard-coded): an input just beyond each
+    of them makes the corresponding flush-in-the-middle or grow-the-array path run, with few calls of its class"""
+    def grab(rel, pat, default):
+        try:
+            m = re.search(pat, (vlib.REPO / rel).read_text(errors="replace"))
+            return int(m.group(1)) if m else default
+        except OSError:
+            return default
+    return {
+        "meta_block": grab("include/sqfs/block.h", r"#define\s+SQFS_META_BLOCK_SIZE\s+\(?(\d+)", 8192),       # meta writer flush
+        "array_first": grab("lib/util/src/array.c", r"new_count\s*=\s*(\d+)", 128),                         # array_append / set_capacity from empty
+        "blkwr_init": grab("lib/sqfs/src/block_writer.c", r"#define\s+INIT_BLOCK_COUNT\s+\(?(\d+)", 128),      # block writer's block list
+        "export_init": grab("lib/sqfs/src/dir_writer.c", r"array_init\(&writer->export_tbl,[^;]*?,\s*(\d+)\)", 512),
+        "xattr_pairs": grab("lib/sqfs/src/xattr/xattr_writer.h", r"#define\s+XATTR_INITIAL_PAIR_CAP\s+\(?(\d+)", 128),
+        "inode_blocks_first": grab("lib/sqfs/src/block_processor/backend.c", r"sizeof\(sqfs_u32\)\s*\*\s*(\d+)", 4),  # set_block_size, then doubling
+    }
+
+
+def boundary_cases(ctx, d, thorough):
+    """gensquashfs inputs sized just beyond the thresholds of growth_constants()"""
+    G = growth_constants()
+    d = Path(d)
+    cases = []
+    # --- metadata: directory table and inode table of several meta blocks, id table / xattr pair array / value string
+    #     table / export table grown beyond their first capacity
+    M = d / "bmeta"
+    M.mkdir(parents=True)
+    name_len = 40
+    ndirs = max(G["export_init"] + 8,                         # export table: one slot per inode
+                (3 * G["meta_block"]) // (8 + name_len) + 8,  # ≥ 3 directory meta blocks: a non-first, non-last one exists
+                (2 * G["meta_block"]) // 32 + 8)              # ≥ 2 inode meta blocks (a basic directory inode is 32 bytes)
+    nids = G["array_first"] + 3
+    nx = max(G["xattr_pairs"], G["array_first"]) + 3
+    lines, xl = [], []
+    for i in range(ndirs):
+        nm = ("directory_with_a_rather_long_name_%04d" % i).ljust(name_len, "x")
+        lines.append("dir %s 0755 %d %d" % (nm, 1000 + (i % nids), 5))
+        if i < nx:
+            xl.append("# file: %s\nuser.k=\"value-%04d\"\n" % (nm, i))
+    (M / "pack.txt").write_text("\n".join(lines) + "\n")
+    (M / "xattr.txt").write_text("\n".join(xl))
+    cases.append(Case("b-meta", "gensquashfs", ["-F", str(M / "pack.txt"), "-A", str(M / "xattr.txt"), "-c", "gzip", "-j", "1", "-e", "-q", "@OUT@"],
+                      "file", None, model=("gen", "pxeq", 0, 0)))
+    cases[-1].boundary = True
+    # --- data: more blocks than the block writer's initial list (twice: second doubling inside the duplicate), a
+    #     multi-block duplicate that is truncated away again, a block list per inode grown up to index ≥ blkwr_init,
+    #     a duplicate tail, more than one fragment block
+    Dd = d / "bdata"
+    Dd.mkdir()
+    nblk = G["blkwr_init"] + 2
+    big = det_bytes("bdata", nblk * BS + 700)
+    (Dd / "a.bin").write_bytes(big)
+    (Dd / "b.bin").write_bytes(big)
+    for i in range(6):
+        (Dd / ("t%d" % i)).write_bytes(det_bytes("tail%d" % i, 1000))
+    for p in sorted(Dd.rglob("*")):
+        os.utime(p, (1000000000, 1000000000))
+    cases.append(Case("b-data", "gensquashfs", ["-D", str(Dd), "-b", str(BS), "-c", "gzip", "-j", "1", "-q", "@OUT@"], "file", None,
+                      model=("gen", "dq", 8, 0)))
+    cases[-1].boundary = True
+    if thorough:
+        # more fragment blocks than the fragment table's first capacity (two 2100-byte unique tails per 4 KiB block)
+        F = d / "bfrag"
+        F.mkdir()
+        nf = 2 * (G["array_first"] + 2)
+        for i in range(nf):
+            (F / ("f%04d" % i)).write_bytes(det_bytes("frag%d" % i, 2100))
+        for p in sorted(F.rglob("*")):
+            os.utime(p, (1000000000, 1000000000))
+        cases.append(Case("b-frag", "gensquashfs", ["-D", str(F), "-b", str(BS), "-c", "gzip", "-j", "1", "-q", "@OUT@"], "file", None,
+                          model=("gen", "dq", nf, 0)))
+        cases[-1].boundary = True
+    return cases, G
+
+
+def plan_stratified(ctx, base, thorough):
+    """boundary cases: every write-like call on the output (EIO), every truncate / read-back on the output; the
+    allocation classes stratified by call site (hash of the six innermost return addresses, from the counting run's
+    trace): every position of a site with few calls, first / last / spread sample of the mass sites"""
+    lim = {"realloc": 64 if thorough else 12, "malloc": 16 if thorough else 3, "calloc": 16 if thorough else 3, "strdup": 8 if thorough else 2,
+           "write": 10 ** 9, "trunc": 10 ** 9, "read": 64 if thorough else 12, "lseek": 8, "fsync": 8, "close": 4, "open": 8 if thorough else 3}
+    jobs = []
+    for (cls, side, h), ks in sorted(base["trace"].items()):
+        if cls in SYS_CLASSES and side != "out" and cls != "open":
+            continue                                   # input-side syscalls are covered by the small cases
+        L = lim.get(cls, 3)
+        ks = sorted(ks)
+        if len(ks) > L:
+            pick = {ks[0], ks[-1]}
+            rest = [k for k in ks if k not in pick]
+            step = max(1, len(rest) // max(1, L - 2))
+            pick |= set(rest[ctx.rng.randrange(step)::step][:max(0, L - 2)])
+            ks = sorted(pick)
+        for k in ks:
+            if cls in SYS_CLASSES:
+                jobs.append({"cls": cls, "k": k, "side": side, "kind": "ENOSPC" if cls == "write" else "EIO"})
+                if thorough and cls == "write" and k % 3 == 0:
+                    jobs.append({"cls": cls, "k": k, "side": side, "kind": "EINTR"})
+            else:
+                jobs.append({"cls": cls, "k": k})
+    return jobs
 
 
 # ------------------------------------------------------------------------------------------------ fault → model site
@@ -643,6 +758,8 @@ def run(ctx):
     work.mkdir()
     scale = 1 if ctx.quick() else 4
     cases = gen_cases(ctx, ctx.scratch / "in", random_for(ctx.seed), tools, scale=scale, jobs="1")
+    bcases, growth = boundary_cases(ctx, ctx.scratch / "in", not ctx.quick())
+    cases += bcases
     nworkers = int(os.environ.get("VERIF_JOBS", "0")) or (4 if ctx.quick() else max(4, vlib.NCPU - 2))
     stats = {"runs": 0, "fired": 0, "verdicts": {}, "by_case": {}, "post_fault_output_writes": {}, "model_compared": 0,
              "model_sites": {}, "tolerated": 0}
@@ -650,7 +767,8 @@ def run(ctx):
     corr_bad = 0
     for case in cases:
         exe = tools[case.tool]
-        base = run_case(case, exe, work / "base", None, env_base=env, timeout=TIMEOUT_ISOLATED)
+        boundary = getattr(case, "boundary", False)
+        base = run_case(case, exe, work / "base", None, env_base=env, timeout=TIMEOUT_ISOLATED, trace=boundary)
         if base["rc"] != 0 or base["out"] == "absent":
             report("base:" + case.name, "fault-free run of %s fails: rc=%s %s" % (case.name, base["rc"], base["stderr"][-300:]),
                           {"case": case.name, "argv": case.argv}, found_input=False)
@@ -659,7 +777,9 @@ def run(ctx):
         if base2["out"] != base["out"]:
             report("nondet:" + case.name, "two fault-free runs of %s differ" % case.name, {"case": case.name}, found_input=False)
             continue
-        if case.name == "gen-many":
+        if boundary:
+            jobs = plan_stratified(ctx, base, not ctx.quick())
+        elif case.name == "gen-many":
             n = base["report"]["count"].get(("realloc", "in"), 0)
             ks = list(range(1, n + 1))
             if ctx.quick() and n > 200:          # the tail (finish phase) completely, the parsing phase sampled
@@ -795,13 +915,16 @@ def run(ctx):
         "rule": "every single fault position of every class (write/read/trunc/open/lseek/fsync/close × in/out × EIO/EINTR-then-error(/ENOSPC for writes); "
                 "malloc/calloc/realloc/strdup by project code) found by a counting run, for gensquashfs (-F and -D), tar2sqfs, sqfs2tar (plain and gzip), "
                 "rdsquashfs -u, -c, -x and -d on a generated input (duplicate, fragment, all-zero tails, sparse blocks, hard link, xattrs, export table); "
+                "boundary cases b-meta / b-data (/ b-frag in thorough) sized just beyond the flush and growth thresholds read from the sources "
+                "(meta block size, array first capacity, block writer list, export table, xattr pair array, inode block list): every output write/truncate, "
+                "allocations stratified by call site (all positions of sites with few calls, first/last/spread of mass sites); "
                 "gen-many: realloc positions on a 513-inode tree (thorough: all; quick: the last 64 and 100 sampled); non-trivial = distinct (tool, class, innermost two project frames) at which a fault fired",
         "exhaustive": True,
         "samples": samples,
         "disagreements_checked": corr_bad,
         "violation_keys": report.count,
         "histogram": stats,
-        "workers": nworkers, "input_scale": scale,
+        "workers": nworkers, "input_scale": scale, "growth_constants": growth,
     })
     return ctx.finish(LEVEL, trusted_extra=[
         "harness/shim_fault.c (link-time syscall wrappers, allocation renames) and tools/checks/c13.py (backtrace → model site table, oracle mirror) are trusted",
@@ -850,6 +973,7 @@ def replay(ctx, path):
     tools = build_tools(ctx)
     env = ctx.san_env()
     cases = gen_cases(ctx, ctx.scratch / "in", random_for(rp.get("input_seed", 0)), tools, scale=rp.get("scale", 1))
+    cases += boundary_cases(ctx, ctx.scratch / "in", True)[0]
     case = [c for c in cases if c.name == rp["case"]][0]
     exe = tools[case.tool]
     base = run_case(case, exe, ctx.scratch / "w" / "base", None, env_base=env, timeout=TIMEOUT_ISOLATED)
